@@ -491,6 +491,50 @@ def rule_store(R):
     R.ob("store/flush-after-complete-write", okfl and nfl >= 1,
          "in perform_outbound_step the flush that follows a write is reached only over the edge `written + count >= len` "
          "(a packet accepted in part is not flushed, marked sent or dropped)", where=pb.span)
+    # the bookkeeping that retires a packet (mark Sent / drop the control entry) runs only once its flush has succeeded: in
+    # every function that flushes the transport and then calls the completion, the completion is reached from the flush
+    # only over its Ok edge -- never before the flush, never on its error edge.  An entry retired before its flush is lost
+    # when the future is dropped at the flush, and has nothing left to re-arm when the flush fails.
+    try:
+        cfb, cfcode = roles.flush_completion(f)
+    except AnchorLost:
+        cfb = None
+    ncf, okcf, whycf = 0, True, ""
+    if cfb is not None:
+        # the functions that mark a queue entry Sent (what the completion ends up calling)
+        cen_ = outq.census(f)
+        sent_fns = set()
+        for q_ in outq.QUEUES:
+            for (b2_, bb2_, field_, val_, span_) in cen_[q_]["elem_stores"]:
+                if field_ == "state" and outq.is_sent(val_):
+                    sent_fns.add(b2_.name)
+        for name_, (b_, code_) in sorted(roles.conn_methods(f).items()):
+            flushes = [c_ for c_ in code_.calls.values() if c_.bb in code_.reachable and c_.path == roles.IO_FLUSH]
+            if code_.name == cfcode.name:
+                # the bookkeeping was folded into the function that flushes: its sites are the calls that mark an entry Sent
+                comp = [c_ for c_ in code_.calls.values() if c_.bb in code_.reachable and any(t_ in sent_fns for t_ in f.call_targets(c_))]
+            else:
+                comp = outq.calls_to(f, code_, cfb)
+            if not comp or not flushes:
+                continue
+            ncf += 1
+            ok_edges = []
+            for c_ in flushes:
+                res_, qs_ = roles.awaited_result_switches(code_, c_)
+                for si_ in res_:
+                    if si_["edges"].get("Ok") is not None:
+                        ok_edges.append((si_["bb"], si_["edges"]["Ok"]))
+                    elif si_["edges"].get("Err") is not None and si_.get("otherwise") is not None:
+                        ok_edges.append((si_["bb"], si_["otherwise"]))
+                for q_ in qs_:
+                    if q_["cont"][1] is not None:
+                        ok_edges.append(q_["cont"])
+            for x_ in comp:
+                if not ok_edges or not code_.must_pass([0], [x_.bb], via_edges=ok_edges)[0]:
+                    okcf, whycf = False, " (in Connection::%s the completion at %s is reachable without a successful flush)" % (name_, code_.line(x_.bb))
+    R.ob("store/complete-after-flush", okcf and ncf >= 1,
+         "the completion bookkeeping of a flushed packet (entry marked Sent / control entry dropped, keep-alive refreshed) is "
+         "reached only over the success edge of the transport flush%s" % whycf, where=pb.span)
     # ... and the length it hands over next to it is a packet length, not a count: the value in the `len` position of the
     # setter never derives from the transport's byte count (two `usize` arguments are easily transposed)
     okl = True
@@ -524,7 +568,14 @@ def rule_drain(R):
     _r(R)
 
 
+def rule_shared_guard(R):
+    """a cancelled operation leaves the handle live and consistent, or dead: at every transport call the latch is known to be unset on all paths (no teardown between two transport steps of one operation) -- C11's rule"""
+    from .c11 import rule_guard as _r
+    _r(R)
+
+
 def run(R):
+    R.rule("guard", rule_shared_guard)
     R.rule("drain", rule_drain)
     R.rule("sent", rule_shared_sent)
     R.rule("ping", rule_ping)
